@@ -304,7 +304,7 @@ pub fn check(prop: &str, tier: &str) -> Option<Report> {
           .filter(|o| {
             !matches!(
               o,
-              Op::Take(_) | Op::First | Op::TakeWhile(_) | Op::ElementAt(_) | Op::Contains(_) | Op::All(_) | Op::DematInBand(..) | Op::Retry(_) | Op::RetryWhen(_) | Op::OnErrorResumeNext(_) | Op::TimeInterval | Op::Window(_) | Op::GroupByParity
+              Op::Take(_) | Op::First | Op::TakeWhile(_) | Op::ElementAt(_) | Op::Contains(_) | Op::All(_) | Op::DematInBand(..) | Op::Retry(_) | Op::RetryWhen(_) | Op::OnErrorResumeNext(_) | Op::TimeInterval | Op::Window(_) | Op::GroupByParity | Op::WindowDeferred(_) | Op::GroupByParityDeferred
             )
           })
           .cloned()
@@ -834,6 +834,24 @@ fn c14_families(th: bool, single: &[Op], last_pos: &[Op]) -> Vec<(Family, usize)
     // subscriptions of the same pipeline is its HashMap's, which nothing fixes
     let w_no_subject: Vec<World> = w_nest.iter().filter(|w| w.srcs[0] != SrcKind::Subject).cloned().collect();
     fams.push((Family { name: "nested, combining operators over one source used twice".into(), pipelines: mp, worlds: Arc::new(w_no_subject), oracles: vec![Oracle::Independence] }, 1));
+  }
+  // (a-tap) nested from inside an operator's own user code: tap's next side effect subscribes again
+  {
+    let mut w_tap = vec![];
+    for sc in wf_scripts(&[1, 2], 2, &[Ending::Complete, Ending::Error]) {
+      let decl = Act::NestFromTap { inner: 1 };
+      w_tap.push(World { srcs: vec![SrcKind::Cold { scripts: vec![sc.clone()], polite: true }], acts: vec![decl.clone(), Act::Sub(0)] });
+      for k in [SrcKind::Hot, SrcKind::Subject] {
+        let mut acts = vec![decl.clone(), Act::Sub(0)];
+        acts.extend(sc.iter().map(|e| Act::Emit(0, e.clone())));
+        w_tap.push(World { srcs: vec![k], acts });
+      }
+    }
+    let red = reduced_ops();
+    let mut p_tap = depth1(&[Op::Tap]);
+    p_tap.extend(depth2(&red, &[Op::Tap]));
+    p_tap.extend(depth2(&[Op::Tap], &red));
+    fams.push((Family { name: "nested: tap's own side effect subscribes again to the same Observable value".into(), pipelines: p_tap, worlds: Arc::new(w_tap), oracles: vec![Oracle::Independence] }, 2));
   }
   // (c) every operator under retry: attempts differ
   let attempts: Vec<Vec<Ev>> = vec![vec![Ev::E(1)], vec![Ev::n(1), Ev::E(2)], vec![Ev::n(1), Ev::n(2), Ev::E(3)], vec![Ev::n(2), Ev::C], vec![Ev::C], vec![Ev::n(1), Ev::n(1), Ev::C]];
